@@ -65,6 +65,7 @@ func (c *ctx) finish() {
 
 func execLine(def stream, lhs string) string {
 	toks := strings.Split(lhs, " ")
+	refTables.Clear()
 	return guard(func() string { return def.exec(toks[1:]) })
 }
 
